@@ -29,8 +29,9 @@ REQUIRED = ["contract:CVR.make_phantoms", "accounting_checked:style", "accountin
             "phantom_cvr_pairs", "phantom_cvr_with_votes_pairs", "second_call_on_same_input_list", "shortfalls_all_different",
             "pool_means_with_phantoms_checked", "pool_means_with_phantoms_checked:assorter_bound_not_1",
             "audit_wide_max_cards_differs_from_stratum_bound", "phantom_mvrs_for_sampled_phantom_cards_checked",
-            "phantom_mvrs_for_sampled_phantom_cards_checked:another_prefix", "contest_with_card_bound_zero", "assorter:plurality", "assorter:supermajority", "assorter:irv"]
-ASSUMPTIONS = ["card bounds >= number of CVRs listing the contest; input lists contain no phantoms",
+            "phantom_mvrs_for_sampled_phantom_cards_checked:another_prefix", "contest_with_card_bound_zero", "call_on_a_list_that_already_holds_phantoms:no_style", "assorter:plurality", "assorter:supermajority", "assorter:irv"]
+ASSUMPTIONS = ["card bounds >= number of records listing the contest; with style the input list holds no phantoms (the "
+               "function is documented for 'the reported CVRs'); without style it may",
                "a phantom labelled pooled inside a pooled batch is scored with that batch's mean by design (C03 depends "
                "on it): the 1/2 clause is asserted for unpooled phantom CVRs"]
 N_CASES = {"quick": 19200, "thorough": 160000}
@@ -182,6 +183,20 @@ def run_case(es, rec):
         if not ok:
             return
         rec.count("second_call_on_same_input_list")
+        # ... and on a list that already holds phantom records (its own earlier output, loaded back): the bound has been
+        # revised upwards again, the new phantoms get a fresh prefix; the accounting is over ALL records
+        stratum.max_cards = max_before + 4
+        if sim.use_style:
+            for con in sim.contests.values():
+                con.cards = con.cards + 2
+        if any(c.phantom for c in sim.cvr_list) and not sim.use_style:
+            # (without style the documented count is max_cards - len(cvr_list), whatever the list holds; with style the
+            # function is documented for "the reported CVRs" and counts real records only: not exercised, see ASSUMPTIONS)
+            ok, third = rec.guard("c08.call:make_phantoms:input_with_phantoms", CVR.make_phantoms, audit=sim.audit,
+                                  contests=sim.contests, cvr_list=list(sim.cvr_list), prefix="phantom-9-", tally_pool=tp, pool=pool)
+            if not ok:
+                return
+            rec.count("call_on_a_list_that_already_holds_phantoms:no_style")
         stratum.max_cards = max_before
         for cid, con in sim.contests.items():
             con.cards = bounds_before[cid]
